@@ -652,6 +652,37 @@ pub fn c11_hands(rng: &mut Rng, thorough: bool) -> Vec<Vec<u32>> {
     out
 }
 
+/// structured and seeded 64-bit sets: empty, full, singletons, rank groups, each overflow bit, boundaries
+pub fn bit_sets(rng: &mut Rng, seeded: usize) -> Vec<u64> {
+    let all: u64 = (1u64 << 52) - 1;
+    let mut v = vec![0u64, all, u64::MAX, !all, 1, 1 << 51, 1 << 52, (1 << 52) | 1, all ^ 1, all ^ (1 << 51)];
+    for i in 0..64 {
+        v.push(1 << i);
+        v.push(all & !(1u64 << (i % 52)));
+        v.push((1u64 << i).wrapping_sub(1));
+    }
+    for r in 0..13 {
+        v.push((1u64 << r) | (1u64 << (13 + r)) | (1u64 << (26 + r)) | (1u64 << (39 + r)));
+    }
+    for i in 52..64 {
+        v.push((1u64 << i) | 0b1011);
+    }
+    for _ in 0..seeded {
+        v.push(match rng.below(5) {
+            0 => rng.next() & all,
+            1 => rng.next() & rng.next() & all,
+            2 => rng.next() & rng.next() & rng.next() & all,
+            3 => (rng.next() & rng.next() & all) | (1u64 << (52 + rng.below(12))),
+            _ => rng.next(),
+        });
+    }
+    v
+}
+
+fn cps(text: &str) -> String {
+    join(text.chars().map(|c| c as u32))
+}
+
 /// keys for the product search: small keys, every table key and its neighbours, powers of two, seeded
 fn find_keys(rng: &mut Rng, seeded: usize) -> Vec<u64> {
     let mut keys: Vec<u64> = (0..4100).collect();
@@ -743,6 +774,60 @@ pub fn cases(prop: &str, thorough: bool, seed: u64, c: &mut Cases) {
             }
         }
         "C02" | "C03" | "C09" => cases_sixseven(c, &mut rng, thorough),
+        "C15" => {
+            let sym = deck_blank();
+            for n in 2..=7usize {
+                for _ in 0..(if thorough { 40_000 } else { 4_000 }) {
+                    let ws: Vec<u32> = (0..n).map(|_| if rng.below(5) == 0 { sym[rng.below(n as u64) as usize] } else { sym[rng.below(53) as usize] }).collect();
+                    c.emit(&format!("bc{n}/card-or-blank-with-repeats"), &format!("bc {}", join(&ws)));
+                }
+                let ws: Vec<u32> = (0..n).map(|_| rng.next() as u32).collect();
+                c.emit(&format!("bc{n}/arbitrary-words"), &format!("bc {}", join(&ws)));
+            }
+            let sets = bit_sets(&mut rng, if thorough { 60_000 } else { 6_000 });
+            for (k, &x) in sets.iter().enumerate() {
+                let y = match k % 4 { 0 => sets[(k * 7 + 3) % sets.len()], 1 => x & rng.next(), 2 => 1u64 << rng.below(64), _ => x | (1u64 << rng.below(64)) };
+                c.emit("bcops/fold_in has count single valid", &format!("bcops {x} {y}"));
+                let k = (x & ((1u64 << 52) - 1)).count_ones() + 2;
+                c.emit("peel/to-exhaustion-plus-two", &format!("peel {x} {k}"));
+            }
+            let ranks = ['A', 'K', 'Q', 'J', 'T', '9', '8', '7', '6', '5', '4', '3', '2', 'a', 't', '0', 'x'];
+            let suits = ['S', 'H', 'D', 'C', 's', '♠', '♥', '♦', '♣', '♤', 'z'];
+            let seps = [" ", "  ", "\t", "\u{a0}", "\n", " \u{3000} "];
+            for _ in 0..(if thorough { 30_000 } else { 3_000 }) {
+                let n = rng.below(8);
+                let mut t = String::new();
+                for _ in 0..n {
+                    t.push(ranks[rng.below(ranks.len() as u64) as usize]);
+                    t.push(suits[rng.below(suits.len() as u64) as usize]);
+                    if rng.below(6) == 0 { t.push('!'); }
+                    t.push_str(seps[rng.below(seps.len() as u64) as usize]);
+                }
+                c.emit("bcidx/text", &format!("bcidx {}", cps(&t)));
+            }
+        }
+        "C16" => {
+            c.emit("two/zero", "two 0");
+            for i in 0..64 {
+                c.emit("two/one-bit", &format!("two {}", 1u64 << i));
+                for j in 0..64 {
+                    if i != j {
+                        c.emit("two/two-bits (both orders of generation)", &format!("two {}", (1u64 << i) | (1u64 << j)));
+                    }
+                }
+            }
+            for pop in 0..=64u32 {
+                for _ in 0..(if thorough { 400 } else { 40 }) {
+                    let mut bits: Vec<u32> = (0..64).collect();
+                    rng.shuffle(&mut bits);
+                    let x = bits[..pop as usize].iter().fold(0u64, |a, b| a | (1u64 << b));
+                    c.emit("two/seeded-by-population-count", &format!("two {x}"));
+                }
+            }
+            for x in bit_sets(&mut rng, 2_000) {
+                c.emit("two/structured+seeded", &format!("two {x}"));
+            }
+        }
         "C17" => {
             let sym = deck_blank();
             for a in sym {
@@ -977,6 +1062,8 @@ pub fn sweep(prop: &str, thorough: bool, seed: u64) -> Sweep {
         "C13" => sweep_c13(seed, thorough),
         "C05" => sweep_c05(seed, thorough),
         "C06" => sweep_c06(),
+        "C15" => sweep_c15(seed, thorough),
+        "C16" => sweep_c16(seed, thorough),
         "C17" => sweep_c17(),
         "C11" => sweep_c11(seed, thorough),
         "C08" => sweep_c08(seed, thorough),
@@ -2267,5 +2354,106 @@ fn sweep_c17() -> Sweep {
     s.sample(format!("AKs = {}", Two::new(layout_word(12, 3), layout_word(11, 3)).chen_formula()));
     s.sample(format!("72o = {}", Two::new(layout_word(5, 3), layout_word(0, 0)).chen_formula()));
     s.sample(format!("22 = {}", Two::new(layout_word(0, 3), layout_word(0, 0)).chen_formula()));
+    s
+}
+
+/// C15: the crate's set operations against bit-level set semantics.
+fn sweep_c15(seed: u64, thorough: bool) -> Sweep {
+    let mut s = Sweep::default();
+    let deck = layout_deck();
+    let sym = deck_blank();
+    let all: u64 = (1u64 << 52) - 1;
+    let bit_of = |w: u32| -> u64 { deck.iter().position(|d| *d == w).map(|i| 1u64 << (51 - i)).unwrap_or(0) };
+    let mut rng = Rng::new(seed ^ 0xC15);
+    for n in 2..=7usize {
+        for _ in 0..(if thorough { 300_000 } else { 30_000 }) {
+            let ws: Vec<u32> = (0..n).map(|_| if rng.below(5) == 0 { sym[rng.below(n as u64) as usize] } else { sym[rng.below(53) as usize] }).collect();
+            s.evaluations += 1;
+            s.nontrivial += 1;
+            let want = ws.iter().fold(0u64, |a, w| a | bit_of(*w));
+            let got = H::mk(&ws).unwrap().bc();
+            if got != want {
+                s.fail("set built from a hand is not the set of its real cards", &join(&ws), &want.to_string(), &got.to_string());
+            }
+        }
+    }
+    let sets = bit_sets(&mut rng, if thorough { 2_000_000 } else { 200_000 });
+    for (k, &x) in sets.iter().enumerate() {
+        s.evaluations += 1;
+        let y = match k % 4 { 0 => sets[(k * 7 + 3) % sets.len()], 1 => x & rng.next(), 2 => 1u64 << rng.below(64), _ => x | (1u64 << rng.below(64)) };
+        let got = (x.fold_in(y), x.has(y), x.number_of_cards(), x.is_single_card(), BC64::is_valid(&x));
+        let want = (x | y, y & !x == 0, (0..64).filter(|i| x >> i & 1 == 1).count() as u32, x != 0 && x & (x - 1) == 0, x != 0 && x & !all == 0);
+        if got != want {
+            s.fail("fold_in / has / number_of_cards / is_single_card / is_valid differ from set semantics", &format!("{x} {y}"), &format!("{want:?}"), &format!("{got:?}"));
+        }
+        // peel to exhaustion and two more
+        let members: Vec<u64> = (0..52).rev().filter(|i| x >> i & 1 == 1).map(|i| 1u64 << i).collect();
+        if !members.is_empty() { s.nontrivial += 1; }
+        let mut cur = x;
+        let mut ok = true;
+        let mut trace = Vec::new();
+        for step in 0..members.len() + 2 {
+            let before = cur;
+            let b = cur.peel();
+            trace.push(b);
+            let want_b = members.get(step).copied().unwrap_or(0);
+            let want_after = if want_b != 0 { before & !want_b } else { before };
+            if b != want_b || cur != want_after { ok = false; }
+        }
+        if !ok {
+            s.fail("peel sequence is not 'members in deck order, then blank without changing the set'", &x.to_string(), &format!("{members:?} then 0 0"), &format!("{trace:?} final {cur}"));
+        }
+    }
+    s.rule = "hands of sizes 2..7 over {52 cards, blank} with repeats: from_n against the OR of the layout bit of every real card; structured (empty, full, singletons, rank groups, overflow bits, boundaries) and seeded 64-bit sets: fold_in, has, number_of_cards, is_single_card, is_valid against bit-level semantics and the full peel sequence (to exhaustion + 2) step by step; non-trivial = non-empty".into();
+    let mut x = 0b1011u64;
+    s.sample(format!("peel x4 from 0b1011: {:?} leaving {}", [x.peel(), x.peel(), x.peel(), x.peel()], x));
+    s
+}
+
+/// C16: Two::try_from(BinaryCard) against the statement of the property.
+fn sweep_c16(seed: u64, thorough: bool) -> Sweep {
+    let mut s = Sweep::default();
+    let deck = layout_deck();
+    let mut check = |x: u64, s: &mut Sweep| {
+        s.evaluations += 1;
+        let got = guarded(|| Two::try_from(x).map(|t| (t.to_arr(), <BinaryCard as BC64>::from_two(t))));
+        let pop = x.count_ones();
+        let want: Result<([u32; 2], u64), HandError> = if pop < 2 {
+            Err(HandError::NotEnoughCards)
+        } else if pop > 2 {
+            Err(HandError::TooManyCards)
+        } else {
+            let hi = 63 - x.leading_zeros() as usize;
+            let lo = x.trailing_zeros() as usize;
+            if hi < 52 { Ok(([deck[51 - hi], deck[51 - lo]], x)) } else { Err(HandError::InvalidBinaryFormat) }
+        };
+        if pop == 2 { s.nontrivial += 1; }
+        if got.as_ref() != Some(&want) {
+            s.fail("Two::try_from(BinaryCard)", &x.to_string(), &format!("{want:?}"), &format!("{got:?}"));
+        }
+    };
+    check(0, &mut s);
+    for i in 0..64 {
+        check(1 << i, &mut s);
+        for j in 0..i {
+            check((1 << i) | (1 << j), &mut s);
+        }
+    }
+    s.count("all one- and two-bit values", 64 + 2016);
+    let mut rng = Rng::new(seed ^ 0xC16);
+    for pop in 0..=64u32 {
+        for _ in 0..(if thorough { 100_000 } else { 10_000 }) {
+            let mut bits: Vec<u32> = (0..64).collect();
+            rng.shuffle(&mut bits);
+            let x = bits[..pop as usize].iter().fold(0u64, |a, b| a | (1u64 << b));
+            check(x, &mut s);
+        }
+    }
+    for x in bit_sets(&mut rng, 100_000) {
+        check(x, &mut s);
+    }
+    s.rule = "all 64 one-bit and 2,016 two-bit values exhaustively, seeded values of every population count 0..64, structured sets: result, error kind, card order and round trip through from_two; non-trivial = exactly two bits".into();
+    s.sample(format!("try_from(3) = {:?}", Two::try_from(3u64).map(|t| t.to_arr())));
+    s.sample(format!("try_from(2^52 + 1) = {:?}", Two::try_from((1u64 << 52) + 1).map(|t| t.to_arr())));
     s
 }
